@@ -50,6 +50,7 @@ func (cr *concRun) analyse(out *ConcOutcome) {
 	cr.checkEvents()
 	cr.checkLoads()
 	cr.checkStaleLoad()
+	cr.checkLoadRemovedNewerWrite()
 	cr.checkCompute()
 	cr.checkStats()
 	cr.checkSweep()
@@ -587,6 +588,72 @@ func (cr *concRun) checkStaleLoad() {
 	}
 }
 
+// checkLoadRemovedNewerWrite (C09): the installation step of a load (its value, or the removal
+// after a not-found result) must not replace or remove a value that an explicit write installed
+// after the load had started; the explicit write cancels the load.
+func (cr *concRun) checkLoadRemovedNewerWrite() {
+	ins := cr.installs()
+	histBy := map[[2]int]*HistOp{}
+	for _, h := range cr.hist {
+		histBy[[2]int{h.Task, h.Idx}] = h
+	}
+	for _, ev := range cr.r.Events {
+		if !ev.Atomic || (ev.Cause != otter.CauseReplacement && ev.Cause != otter.CauseInvalidation) {
+			continue
+		}
+		info := ins[ev.V]
+		if info == nil || !info.explicit {
+			continue
+		}
+		w := histBy[[2]int{info.task, info.opIdx}]
+		if w == nil || w.Task < 0 {
+			continue
+		}
+		for _, l := range cr.r.Loads {
+			if l.TaskRef != ev.TaskRef || l.Exit == 0 || l.Exit > ev.Seq {
+				continue
+			}
+			requested := false
+			for _, k := range l.Keys {
+				if k == ev.K {
+					requested = true
+				}
+			}
+			if !requested {
+				continue
+			}
+			// the event must belong to this load's installation step
+			if ev.Task >= 0 {
+				if !(l.Task == ev.Task && l.OpIdx == ev.OpIdx) {
+					continue
+				}
+			} else {
+				end := l.InstallEnd
+				if end == 0 && l.TaskRef != nil {
+					end = l.TaskRef.FinishSeq
+				}
+				if end != 0 && ev.Seq > end {
+					continue
+				}
+				// a later loader call of the same background task owns later events
+				later := false
+				for _, l2 := range cr.r.Loads {
+					if l2 != l && l2.TaskRef == l.TaskRef && l2.Enter > l.Exit && l2.Enter < ev.Seq {
+						later = true
+					}
+				}
+				if later {
+					continue
+				}
+			}
+			cr.probe["load-install-displaced-explicit-value"]++
+			if w.Call > l.Enter {
+				cr.fail(P("C09"), "load.displaced-newer-write", ev.K, "key %d: value %d was written by %s (task %d, invoked at %d) after the loader had been entered (at %d), yet the installation step of that load removed it (cause %s, outcome %s)", ev.K, ev.V, w.Op, w.Task, w.Call, l.Enter, ev.Cause, l.Outcome)
+			}
+		}
+	}
+}
+
 // ---------------------------------------------------------------------------------------------
 // compute callbacks (C02)
 
@@ -906,6 +973,11 @@ func (cr *concRun) checkLin(out *ConcOutcome) {
 		case "bulkget", "bulkrefresh", "refresh", "setexpires", "setrefreshable":
 			for _, k := range keys {
 				skip[k] = true
+			}
+			if op.Load != nil {
+				for _, k := range op.Load.Extra { // keys a bulk loader volunteers are written too
+					skip[k] = true
+				}
 			}
 			continue
 		case "invalidateall":
